@@ -836,7 +836,7 @@ class ComposerBinary(ComposerBase):
 
     def compose_timestamp(self, value, milliseconds=False, item_size=8):
         if value is None:
-            timestamp = 0xffffffffffffffff
+            timestamp = 2 ** (8 * item_size) - 1
         else:
             timestamp = calendar.timegm(value.utctimetuple())
 
